@@ -91,50 +91,116 @@ Proof.
 Qed.
 
 (* ------------------------------------------------------------------ backstep *)
-Lemma backstep_decomp (t : gene -> bool) (l : list gene) : forall i, (i <= length l)%nat ->
-  exists pre mid, firstn i l = pre ++ mid /\ length pre = backstep t l i /\
+Lemma backstep_decomp (lo : nat) (t : gene -> bool) (l : list gene) : forall i, (lo <= i <= length l)%nat ->
+  exists pre mid, firstn i l = pre ++ mid /\ length pre = backstep lo t l i /\ (lo <= length pre)%nat /\
                   (forall g, In g mid -> t g = true) /\
-                  (pre = [] \/ exists pre' x, pre = pre' ++ [x] /\ t x = false).
+                  (length pre = lo \/ exists pre' x, pre = pre' ++ [x] /\ t x = false).
 Proof.
   induction i as [|j IH]; intros Hi.
-  - exists [], []. repeat split; [intros ? []|now left].
-  - destruct (nth_error l j) as [g|] eqn:Hn.
-    2:{ apply nth_error_None in Hn. lia. }
-    cbn [backstep]. rewrite Hn. rewrite (firstn_S_nth l j g Hn).
-    destruct (t g) eqn:Ht.
-    + destruct IH as (pre & mid & E & Hl & Hm & Hp); [lia|].
-      exists pre, (mid ++ [g]). rewrite E, app_assoc. repeat split; auto.
-      intros x Hx. apply in_app_or in Hx. destruct Hx as [Hx|[<-|[]]]; [now apply Hm|exact Ht].
-    + exists (firstn j l ++ [g]), []. rewrite app_nil_r. repeat split.
-      * rewrite app_length, firstn_length. cbn [length]. lia.
-      * intros ? [].
-      * right. exists (firstn j l), g. split; [reflexivity|exact Ht].
+  - exists [], []. cbn. split; [reflexivity|]. split; [reflexivity|]. split; [lia|]. split; [intros ? []|left; lia].
+  - cbn [backstep]. destruct (Nat.leb (S j) lo) eqn:Hlo.
+    + apply Nat.leb_le in Hlo. exists (firstn (S j) l), []. rewrite app_nil_r.
+      assert (Hlen : length (firstn (S j) l) = S j) by (rewrite firstn_length; lia).
+      split; [reflexivity|]. split; [exact Hlen|]. split; [lia|]. split; [intros ? []|left; lia].
+    + apply Nat.leb_gt in Hlo. destruct (nth_error l j) as [g|] eqn:Hn.
+      2:{ apply nth_error_None in Hn. lia. }
+      rewrite (firstn_S_nth l j g Hn).
+      destruct (t g) eqn:Ht.
+      * destruct IH as (pre & mid & E & Hl & Hlo' & Hm & Hp); [lia|].
+        exists pre, (mid ++ [g]). rewrite E, app_assoc. repeat split; auto.
+        intros x Hx. apply in_app_or in Hx. destruct Hx as [Hx|[<-|[]]]; [now apply Hm|exact Ht].
+      * exists (firstn j l ++ [g]), []. rewrite app_nil_r.
+        assert (Hlen : length (firstn j l ++ [g]) = S j) by (rewrite app_length, firstn_length; cbn [length]; lia).
+        split; [reflexivity|]. split; [exact Hlen|]. split; [lia|]. split; [intros ? []|].
+        right. exists (firstn j l), g. split; [reflexivity|exact Ht].
 Qed.
 
-(* ------------------------------------------------------------------ single-part genes *)
+(* ------------------------------------------------------------------ min / max of a list *)
+Lemma fold_min_le l : forall x y, In y (x :: l) -> fold_left Z.min l x <= y.
+Proof.
+  induction l as [|a l IH]; intros x y Hin; simpl in *.
+  - destruct Hin as [->|[]]. lia.
+  - destruct Hin as [->|[->|Hin]].
+    + specialize (IH (Z.min y a) (Z.min y a) (or_introl eq_refl)). lia.
+    + specialize (IH (Z.min x y) (Z.min x y) (or_introl eq_refl)). lia.
+    + apply IH. right. assumption.
+Qed.
+Lemma fold_max_ge l : forall x y, In y (x :: l) -> y <= fold_left Z.max l x.
+Proof.
+  induction l as [|a l IH]; intros x y Hin; simpl in *.
+  - destruct Hin as [->|[]]. lia.
+  - destruct Hin as [->|[->|Hin]].
+    + specialize (IH (Z.max y a) (Z.max y a) (or_introl eq_refl)). lia.
+    + specialize (IH (Z.max x y) (Z.max x y) (or_introl eq_refl)). lia.
+    + apply IH. right. assumption.
+Qed.
+Lemma fold_min_in l : forall x, In (fold_left Z.min l x) (x :: l).
+Proof.
+  induction l as [|a l IH]; intros x; simpl.
+  - left. reflexivity.
+  - destruct (IH (Z.min x a)) as [H|H].
+    + destruct (Z.min_spec x a) as [[_ E]|[_ E]]; rewrite E in *; auto.
+    + right. right. assumption.
+Qed.
+Lemma lmin_le l y : In y l -> lmin l <= y.
+Proof. destruct l as [|x l]; [intros []|]. apply fold_min_le. Qed.
+Lemma lmax_ge l y : In y l -> y <= lmax l.
+Proof. destruct l as [|x l]; [intros []|]. apply fold_max_ge. Qed.
+Lemma lmin_in l : l <> [] -> In (lmin l) l.
+Proof. destruct l as [|x l]; [congruence|]. intros _. apply fold_min_in. Qed.
+
+Lemma lstart_le (l : loc) p : In p l -> lstart l <= ps p.
+Proof. intros H. unfold lstart. apply lmin_le. now apply in_map. Qed.
+Lemma lend_ge (l : loc) p : In p l -> pe p <= lend l.
+Proof. intros H. unfold lend. apply lmax_ge. now apply in_map. Qed.
+Lemma lstart_in (l : loc) : l <> [] -> exists p, In p l /\ ps p = lstart l.
+Proof.
+  intros Hne. assert (Hin : In (lstart l) (map ps l)).
+  { apply lmin_in. intros E. apply map_eq_nil in E. contradiction. }
+  apply in_map_iff in Hin. destruct Hin as (p & E & Hp). exists p. now split.
+Qed.
+
+(* ------------------------------------------------------------------ genes: starts, ends, the order of Feature.__lt__ *)
 Definition gs (g : gene) : Z := lstart (gloc g).
 Definition ge (g : gene) : Z := lend (gloc g).
-Definition le2 (a b : gene) : Prop := gs a <= gs b /\ ge a <= ge b.
 
-Fixpoint SS (l : list gene) : Prop :=
+(* every part of the gene has a base, and there is at least one part *)
+Definition parts_ok (g : gene) : Prop := gloc g <> [] /\ forall p, In p (gloc g) -> ps p < pe p.
+
+(* a is not after b in the order of Feature.__lt__ *)
+Definition kle (a b : gene) : Prop := feat_lt (gloc b) (gloc a) = false.
+Fixpoint KS (l : list gene) : Prop :=
   match l with
   | [] => True
-  | f :: r => (forall g, In g r -> le2 f g) /\ SS r
+  | f :: r => (forall g, In g r -> kle f g) /\ KS r
   end.
 
-Lemma monotone_SS l : monotone l = true -> SS l.
+Lemma kle_trans a b c : kle a b -> kle b c -> kle a c.
+Proof.
+  unfold kle, feat_lt, pair_lt.
+  destruct (fkey (gloc a)) as [a1 a2], (fkey (gloc b)) as [b1 b2], (fkey (gloc c)) as [c1 c2]. cbn [fst snd]. lia.
+Qed.
+
+Lemma key_sorted_KS l : key_sorted l = true -> KS l.
 Proof.
   induction l as [|a l IH]; intros H; [exact I|].
   destruct l as [|b t]; [split; [intros ? []|exact I]|].
-  cbn [monotone] in H. apply andb_prop in H. destruct H as [H Hm].
-  apply andb_prop in H. destruct H as [H1 H2].
+  change (negb (feat_lt (gloc b) (gloc a)) && key_sorted (b :: t) = true) in H.
+  apply andb_prop in H. destruct H as [H Hm]. apply negb_true_iff in H.
   specialize (IH Hm). split; [|exact IH].
-  intros g [<-|Hg].
-  - unfold le2, gs, ge. lia.
-  - destruct IH as [Hb _]. specialize (Hb g Hg). unfold le2, gs, ge in *. lia.
+  intros g [<-|Hg]; [exact H|].
+  destruct IH as [Hb _]. exact (kle_trans a b g H (Hb g Hg)).
 Qed.
 
-Lemma SS_app a b : SS (a ++ b) -> SS a /\ SS b /\ (forall x y, In x a -> In y b -> le2 x y).
+Lemma KS_key_sorted l : KS l -> key_sorted l = true.
+Proof.
+  induction l as [|a l IH]; intros H; [reflexivity|].
+  destruct l as [|b t]; [reflexivity|]. destruct H as [Ha Hs].
+  change (negb (feat_lt (gloc b) (gloc a)) && key_sorted (b :: t) = true).
+  rewrite (IH Hs). pose proof (Ha b (or_introl eq_refl)) as Hk. unfold kle in Hk. rewrite Hk. reflexivity.
+Qed.
+
+Lemma KS_app a b : KS (a ++ b) -> KS a /\ KS b /\ (forall x y, In x a -> In y b -> kle x y).
 Proof.
   induction a as [|x a IH]; intros H.
   - split; [exact I|]. split; [exact H|]. intros ? ? [].
@@ -142,6 +208,15 @@ Proof.
     + split; [|exact Sa]. intros g Hg. apply Hx. apply in_or_app. now left.
     + exact Sb.
     + intros u v [<-|Hu] Hv; [apply Hx; apply in_or_app; now right|now apply Hab].
+Qed.
+
+Lemma KS_app_intro a b : KS a -> KS b -> (forall x y, In x a -> In y b -> kle x y) -> KS (a ++ b).
+Proof.
+  induction a as [|x a IH]; intros Ha Hb Hab; [exact Hb|].
+  destruct Ha as [Hx Ha]. cbn [app KS]. split.
+  - intros r' Hr. apply in_app_or in Hr. destruct Hr as [Hr|Hr]; [now apply Hx|].
+    apply Hab; [now left|exact Hr].
+  - apply IH; [exact Ha|exact Hb|]. intros u v Hu Hv. apply Hab; [now right|exact Hv].
 Qed.
 
 Lemma simple_gene_inv g : simple_gene g = true ->
@@ -169,166 +244,341 @@ Proof. reflexivity. Qed.
 Lemma fkey_single p : fkey [p] = (ps p, pe p - ps p).
 Proof. unfold fkey, kstart. rewrite bridges_single. unfold lstart, llen. cbn. f_equal. lia. Qed.
 
-(* ------------------------------------------------------------------ the forward scan *)
-Section Scan.
+Lemma simple_parts_ok g : simple_gene g = true -> parts_ok g /\ bridges (gloc g) = false.
+Proof.
+  intros H. destruct (simple_gene_inv g H) as (p & E & Hp & _). unfold parts_ok. rewrite E.
+  split; [split; [discriminate|]|reflexivity]. intros p' [<-|[]]. exact Hp.
+Qed.
+
+(* ------------------------------------------------------------------ where a hit can lie *)
+Section Hits.
   Variable qp : part.
   Hypothesis Hq : ps qp < pe qp.
   Let q : loc := [qp].
 
-  Lemma hit_simple wo g : simple_gene g = true ->
-    hit q wo g = true <->
-    (ps qp <= gs g /\ ge g <= pe qp) \/ (wo = true /\ gs g < pe qp /\ ps qp < ge g).
+  Lemma part_overlap_bounds p : ps p < pe p -> part_overlap p qp = true -> ps p < pe qp /\ ps qp < pe p.
+  Proof. intros Hp. unfold part_overlap, in_part. lia. Qed.
+
+  Lemma contains_parts g p : contains q (gloc g) = true -> In p (gloc g) -> ps qp <= ps p /\ pe p <= pe qp.
   Proof.
-    intros Hg. destruct (simple_gene_inv g Hg) as (p & E & Hp & Es & Ee).
-    unfold hit, q. rewrite E, Es, Ee.
-    pose proof (contains_single qp p) as Hc. pose proof (overlap_single p qp Hp Hq) as Ho.
-    destruct (contains [qp] [p]); destruct (overlap [p] [qp]); destruct wo; cbn [orb andb]; split; intros H;
-      try reflexivity; try discriminate; intuition (try discriminate; try lia).
+    intros Hc Hp. unfold contains in Hc. rewrite forallb_forall in Hc. specialize (Hc p Hp).
+    unfold q in Hc. cbn [existsb] in Hc. unfold part_contains in Hc. lia.
   Qed.
 
-  (* once a gene at or after the query's start is missed, every later gene is missed *)
-  Lemma hit_closed wo f g : simple_gene f = true -> simple_gene g = true -> le2 f g ->
-    ps qp <= gs f -> hit q wo f = false -> hit q wo g = false.
+  (* a hit starts before the query's end ... *)
+  Lemma hit_starts_before wo g : parts_ok g -> hit q wo g = true -> gs g < pe qp.
   Proof.
-    intros Hf Hg [L1 L2] Hs Hn.
-    destruct (hit q wo g) eqn:Hh; [|reflexivity].
-    apply (hit_simple wo g Hg) in Hh.
-    assert (Hc : hit q wo f = true); [|rewrite Hc in Hn; discriminate].
-    apply (hit_simple wo f Hf).
-    destruct (simple_gene_inv f Hf) as (pf & _ & Hpf & Esf & Eef).
-    destruct Hh as [Hh|Hh]; [left; lia|].
-    destruct Hh as (-> & H1 & H2). right. repeat split; lia.
+    intros [Hne Hpos] Hh. unfold hit in Hh. apply orb_prop in Hh. destruct Hh as [Hc|Ho].
+    - destruct (lstart_in (gloc g) Hne) as (p & Hp & E).
+      destruct (contains_parts g p Hc Hp) as [H1 H2].
+      pose proof (Hpos p Hp). unfold gs. lia.
+    - apply andb_prop in Ho. destruct Ho as [_ Ho]. unfold overlap in Ho.
+      apply existsb_exists in Ho. destruct Ho as (p & Hp & Ho). unfold q in Ho. cbn [existsb] in Ho.
+      rewrite orb_false_r in Ho.
+      destruct (part_overlap_bounds p (Hpos p Hp) Ho). pose proof (lstart_le (gloc g) p Hp). unfold gs. lia.
   Qed.
 
-  Lemma scan_filter wo l : SS l -> (forall g, In g l -> simple_gene g = true) ->
-    (forall g, In g l -> ps qp <= gs g) -> scan q wo l = filter (hit q wo) l.
+  (* ... and ends after its start *)
+  Lemma hit_ends_after wo g : parts_ok g -> hit q wo g = true -> ps qp < ge g.
   Proof.
-    induction l as [|f r IH]; intros Hs Hsim Hst; [reflexivity|].
-    destruct Hs as [Hf Hs].
-    assert (IHr : scan q wo r = filter (hit q wo) r).
-    { apply IH; [exact Hs| |]; intros g Hg; [apply Hsim|apply Hst]; now right. }
-    cbn [scan filter]. unfold hit at 1.
-    destruct (contains q (gloc f)) eqn:Hc; cbn [orb]; [now rewrite IHr|].
-    destruct (wo && overlap (gloc f) q) eqn:Ho; [now rewrite IHr|].
-    assert (Hnone : filter (hit q wo) r = []).
-    { apply filter_all_false. intros g Hg.
-      apply (hit_closed wo f g); [apply Hsim; now left|apply Hsim; now right|now apply Hf|apply Hst; now left|].
-      unfold hit. now rewrite Hc, Ho. }
-    rewrite Hnone. destruct r as [|n r']; [reflexivity|].
-    destruct (contains (gloc f) (gloc n)); [now rewrite IHr, Hnone|reflexivity].
+    intros [Hne Hpos] Hh. unfold hit in Hh. apply orb_prop in Hh. destruct Hh as [Hc|Ho].
+    - destruct (lstart_in (gloc g) Hne) as (p & Hp & E).
+      destruct (contains_parts g p Hc Hp) as [H1 H2].
+      pose proof (Hpos p Hp). pose proof (lend_ge (gloc g) p Hp). unfold ge. lia.
+    - apply andb_prop in Ho. destruct Ho as [_ Ho]. unfold overlap in Ho.
+      apply existsb_exists in Ho. destruct Ho as (p & Hp & Ho). unfold q in Ho. cbn [existsb] in Ho.
+      rewrite orb_false_r in Ho.
+      destruct (part_overlap_bounds p (Hpos p Hp) Ho). pose proof (lend_ge (gloc g) p Hp). unfold ge. lia.
   Qed.
 
-  Lemma scan_hits_app wo m r : (forall g, In g m -> hit q wo g = true) -> scan q wo (m ++ r) = m ++ scan q wo r.
+  (* a gene inside the query does not start before it *)
+  Lemma contained_starts_within g : parts_ok g -> contains q (gloc g) = true -> ps qp <= gs g.
   Proof.
-    induction m as [|f m IH]; intros H; [reflexivity|].
-    cbn [app scan]. pose proof (H f (or_introl eq_refl)) as Hf. unfold hit in Hf.
-    destruct (contains q (gloc f)); [f_equal; apply IH; intros g Hg; apply H; now right|].
-    cbn [orb] in Hf. rewrite Hf. f_equal. apply IH. intros g Hg. apply H. now right.
+    intros [Hne Hpos] Hc. destruct (lstart_in (gloc g) Hne) as (p & Hp & E).
+    destruct (contains_parts g p Hc Hp). unfold gs. lia.
   Qed.
 
-  Lemma feat_lt_simple g : simple_gene g = true ->
-    feat_lt (gloc g) q = true <-> (gs g < ps qp \/ (gs g = ps qp /\ ge g - gs g < pe qp - ps qp)).
+  Lemma feat_lt_query g : bridges (gloc g) = false ->
+    feat_lt (gloc g) q = true <-> (gs g < ps qp \/ (gs g = ps qp /\ llen (gloc g) < pe qp - ps qp)).
   Proof.
-    intros Hg. destruct (simple_gene_inv g Hg) as (p & E & Hp & Es & Ee).
-    unfold feat_lt, q. rewrite E, Es, Ee, !fkey_single. unfold pair_lt. cbn [fst snd]. lia.
+    intros Hb. unfold feat_lt, q. rewrite fkey_single. unfold fkey, kstart. rewrite Hb.
+    unfold pair_lt, gs. cbn [fst snd]. lia.
   Qed.
 
-  Theorem lookup_simple_exact genes wo : layout_ok genes = true ->
-    scan q wo (skipn (find_start q genes wo) genes) = filter (hit q wo) genes.
+  Lemma take_while_hits wo (l : list gene) :
+    (forall a b, l = a ++ b -> forall x y, In x a -> In y b -> gs x <= gs y) -> (forall g, In g l -> parts_ok g) ->
+    filter (hit q wo) (take_while (fun f => lstart (gloc f) <? lend q) l) = filter (hit q wo) l.
   Proof.
-    intros Hl. unfold layout_ok in Hl. apply andb_prop in Hl. destruct Hl as [Hsim Hmono].
-    assert (Hsimple : forall g, In g genes -> simple_gene g = true) by (apply forallb_forall; exact Hsim).
-    pose proof (monotone_SS genes Hmono) as Hss.
-    (* the bisection *)
-    destruct (downward_split (fun g => feat_lt (gloc g) q) genes) as (A & B & EAB & HA & HB).
-    { intros a x b y E Hy Hp. subst genes.
-      assert (Hx : simple_gene x = true) by (apply Hsimple, in_or_app; right; now left).
-      assert (Hy' : simple_gene y = true) by (apply Hsimple, in_or_app; right; now right).
-      apply SS_app in Hss. destruct Hss as (_ & [Hxb _] & _). specialize (Hxb y Hy). destruct Hxb as [L1 L2].
-      apply (feat_lt_simple x Hx). apply (feat_lt_simple y Hy') in Hp. lia. }
-    unfold find_start. rewrite EAB. rewrite (bisect_partition _ A B 0%nat HA HB (Nat.le_0_l _)).
-    rewrite <- EAB.
-    (* first back-step: genes with the query's start *)
-    destruct (backstep_decomp (fun g => lstart (gloc g) =? lstart q) genes (length A)) as (pre1 & mid1 & E1 & L1 & M1 & P1).
-    { rewrite EAB, app_length. lia. }
-    rewrite EAB, firstn_length_app in E1.
-    assert (Egenes : genes = pre1 ++ mid1 ++ B) by (rewrite app_assoc, <- E1; exact EAB).
-    assert (HsimA : forall g, In g A -> gs g <= ps qp).
-    { intros g Hg. assert (Hs : simple_gene g = true) by (apply Hsimple; rewrite EAB; apply in_or_app; now left).
-      specialize (HA g Hg). cbn beta in HA. apply (feat_lt_simple g Hs) in HA. lia. }
-    assert (Hpre1 : forall g, In g pre1 -> gs g < ps qp).
-    { destruct P1 as [->|(pre' & x & -> & Hx)]; [intros ? []|].
-      assert (Hxa : In x A) by (rewrite E1; apply in_or_app; left; apply in_or_app; right; now left).
-      assert (Hxs : gs x < ps qp).
-      { specialize (HsimA x Hxa). unfold gs in *. unfold q, lstart at 2 in Hx. cbn in Hx. lia. }
-      intros g Hg. apply in_app_or in Hg. destruct Hg as [Hg|[<-|[]]]; [|exact Hxs].
-      rewrite Egenes in Hss. apply SS_app in Hss. destruct Hss as (Hss1 & _ & _).
-      apply SS_app in Hss1. destruct Hss1 as (_ & _ & Hc). destruct (Hc g x Hg (or_introl eq_refl)). lia. }
-    assert (HR1 : forall g, In g (mid1 ++ B) -> ps qp <= gs g).
-    { intros g Hg. apply in_app_or in Hg. destruct Hg as [Hg|Hg].
-      - specialize (M1 g Hg). cbn beta in M1. unfold gs. unfold q, lstart at 2 in M1. cbn in M1. lia.
-      - assert (Hs : simple_gene g = true) by (apply Hsimple; rewrite EAB; apply in_or_app; now right).
-        specialize (HB g Hg). cbn beta in HB.
-        destruct (Z_lt_ge_dec (gs g) (ps qp)) as [Hlt|Hge]; [|lia].
-        assert (Ht : feat_lt (gloc g) q = true) by (apply (feat_lt_simple g Hs); lia).
-        rewrite Ht in HB. discriminate. }
-    assert (Hss' := Hss). rewrite Egenes in Hss'. apply SS_app in Hss'. destruct Hss' as (SSpre1 & SSR1 & _).
-    assert (HsimR1 : forall g, In g (mid1 ++ B) -> simple_gene g = true).
-    { intros g Hg. apply Hsimple. rewrite Egenes. apply in_or_app. now right. }
-    assert (Hmiss1 : forall g, In g pre1 -> contains q (gloc g) = false).
-    { intros g Hg. assert (Hs : simple_gene g = true) by (apply Hsimple; rewrite Egenes; apply in_or_app; now left).
-      destruct (simple_gene_inv g Hs) as (p & E & Hp & Es & Ee). specialize (Hpre1 g Hg).
-      destruct (contains q (gloc g)) eqn:Hc; [|reflexivity]. unfold q in Hc. rewrite E in Hc.
-      apply contains_single in Hc. lia. }
-    destruct wo.
-    - (* with_overlapping: second back-step over overlapping predecessors *)
-      destruct (backstep_decomp (fun g => overlap (gloc g) q) genes (backstep (fun g => lstart (gloc g) =? lstart q) genes (length A)))
-        as (pre2 & mid2 & E2 & L2 & M2 & P2).
-      { rewrite <- L1, Egenes, app_length. lia. }
-      rewrite <- L1 in E2. rewrite Egenes in E2 at 1. rewrite firstn_length_app in E2.
-      rewrite <- L2. rewrite Egenes at 1. rewrite E2, <- app_assoc, skipn_length_app.
-      assert (Hmid2 : forall g, In g mid2 -> hit q true g = true).
-      { intros g Hg. unfold hit. rewrite (M2 g Hg). cbn. apply orb_true_r. }
-      rewrite (scan_hits_app true mid2 (mid1 ++ B) Hmid2).
-      rewrite (scan_filter true (mid1 ++ B) SSR1 HsimR1 HR1).
-      rewrite Egenes at 1. rewrite E2, <- app_assoc, !filter_app.
-      rewrite (filter_all_true _ mid2 Hmid2).
-      rewrite (filter_all_false (hit q true) pre2); [reflexivity|].
-      intros g Hg.
-      assert (Hgp : In g pre1) by (rewrite E2; apply in_or_app; now left).
-      assert (Hs : simple_gene g = true) by (apply Hsimple; rewrite Egenes; apply in_or_app; now left).
-      unfold hit. rewrite (Hmiss1 g Hgp). cbn [orb andb].
-      destruct P2 as [->|(pre' & x & -> & Hx)]; [destruct Hg|].
-      assert (Hxp : In x pre1) by (rewrite E2; apply in_or_app; left; apply in_or_app; right; now left).
-      assert (Hxs : simple_gene x = true) by (apply Hsimple; rewrite Egenes; apply in_or_app; now left).
-      destruct (simple_gene_inv x Hxs) as (px & Ex & Hpx & Esx & Eex).
-      pose proof (Hpre1 x Hxp) as Hxlt.
-      rewrite Ex in Hx. unfold q in Hx.
-      assert (Hxe : ge x <= ps qp).
-      { destruct (Z_lt_ge_dec (ps qp) (ge x)) as [Hlt|Hge]; [|lia].
-        assert (Ho : overlap [px] [qp] = true) by (apply overlap_single; lia).
-        rewrite Ho in Hx. discriminate. }
-      assert (Hge : ge g <= ps qp).
-      { apply in_app_or in Hg. destruct Hg as [Hg|[<-|[]]]; [|exact Hxe].
-        rewrite E2 in SSpre1. apply SS_app in SSpre1. destruct SSpre1 as (Sp & _ & _).
-        apply SS_app in Sp. destruct Sp as (_ & _ & Hc). destruct (Hc g x Hg (or_introl eq_refl)). lia. }
-      destruct (simple_gene_inv g Hs) as (p & E & Hp & Es & Ee). rewrite E. unfold q.
-      destruct (overlap [p] [qp]) eqn:Ho; [|reflexivity]. apply overlap_single in Ho; lia.
-    - rewrite <- L1. rewrite Egenes at 1. rewrite skipn_length_app.
-      rewrite (scan_filter false (mid1 ++ B) SSR1 HsimR1 HR1).
-      rewrite Egenes. rewrite (filter_app _ pre1).
-      rewrite (filter_all_false (hit q false) pre1); [reflexivity|].
-      intros g Hg. unfold hit. rewrite (Hmiss1 g Hg). reflexivity.
+    induction l as [|x l IH]; intros Hs Hok; [reflexivity|].
+    assert (El : lend q = pe qp) by reflexivity.
+    cbn [take_while]. destruct (lstart (gloc x) <? lend q) eqn:Ex; rewrite El in Ex.
+    - cbn [filter]. rewrite IH; [reflexivity| |].
+      + intros a b E x0 y Hx0 Hy. apply (Hs (x :: a) b); [now rewrite E|now right|exact Hy].
+      + intros g Hg. apply Hok. now right.
+    - change (filter (hit q wo) []) with (@nil gene). symmetry. apply filter_all_false. intros g Hg.
+      destruct (hit q wo g) eqn:Hh; [|reflexivity].
+      pose proof (hit_starts_before wo g (Hok g Hg) Hh) as Hb.
+      assert (Hx : gs x <= gs g).
+      { destruct Hg as [<-|Hg]; [lia|]. exact (Hs [x] l eq_refl x g (or_introl eq_refl) Hg). }
+      unfold gs in *. lia.
   Qed.
-End Scan.
+End Hits.
+
+Lemma filter_filter_imp {A} (p r : A -> bool) l : (forall x, In x l -> p x = true -> r x = true) ->
+  filter p (filter r l) = filter p l.
+Proof.
+  induction l as [|x l IH]; intros H; [reflexivity|].
+  cbn [filter]. destruct (r x) eqn:Er.
+  - cbn [filter]. rewrite IH; [reflexivity|]. intros y Hy. apply H. now right.
+  - destruct (p x) eqn:Ep.
+    + rewrite (H x (or_introl eq_refl) Ep) in Er. discriminate.
+    + apply IH. intros y Hy. apply H. now right.
+Qed.
+
+(* ------------------------------------------------------------------ the leading run of origin-crossing genes *)
+Lemma lead_cross_split l : exists C N, l = C ++ N /\ length C = lead_cross l /\
+  (forall g, In g C -> bridges (gloc g) = true) /\ (match N with n :: _ => bridges (gloc n) = false | [] => True end).
+Proof.
+  induction l as [|f r IH].
+  - exists [], []. split; [reflexivity|]. split; [reflexivity|]. split; [intros ? []|exact I].
+  - cbn [lead_cross]. destruct (bridges (gloc f)) eqn:Hb.
+    + destruct IH as (C & N & E & L & HC & HN). exists (f :: C), N.
+      split; [cbn [app]; now rewrite <- E|]. split; [cbn [length]; now rewrite L|]. split; [|exact HN].
+      intros g [<-|Hg]; [exact Hb|now apply HC].
+    + exists [], (f :: r). split; [reflexivity|]. split; [reflexivity|]. split; [intros ? []|exact Hb].
+Qed.
+
+(* genes that do not cross the origin, in the order of Feature.__lt__, are in the order of their starts *)
+Lemma KS_nb_sorted N : KS N -> (forall g, In g N -> bridges (gloc g) = false) ->
+  forall a b, N = a ++ b -> forall x y, In x a -> In y b -> gs x <= gs y.
+Proof.
+  intros KN HN a b E x y Hx Hy. rewrite E in KN. apply KS_app in KN. destruct KN as (_ & _ & Hab).
+  specialize (Hab x y Hx Hy).
+  assert (Bx : bridges (gloc x) = false) by (apply HN; rewrite E; apply in_or_app; now left).
+  assert (By : bridges (gloc y) = false) by (apply HN; rewrite E; apply in_or_app; now right).
+  unfold kle, feat_lt, fkey, kstart, pair_lt in Hab. rewrite Bx, By in Hab. cbn [fst snd] in Hab.
+  unfold gs. lia.
+Qed.
+
+(* ------------------------------------------------------------------ the look-up returns exactly the hits *)
+(* core statement: the list is in the order of Feature.__lt__, every exon has a base, the genes that cross the origin
+   sort before the query and no other gene follows them out of place (cross_first) *)
+Definition cross_first (genes : list gene) : Prop :=
+  forall g, In g (skipn (lead_cross genes) genes) -> bridges (gloc g) = false.
+
+Theorem lookup_simple_core genes qp wo : ps qp < pe qp ->
+  KS genes -> (forall g, In g genes -> parts_ok g) -> cross_first genes ->
+  (forall g, In g genes -> bridges (gloc g) = true -> feat_lt (gloc g) [qp] = true) ->
+  filter (hit [qp] wo) (candidates genes [qp] wo) = filter (hit [qp] wo) genes.
+Proof.
+  intros Hq Hks Hok Hcf Hcq. set (q := [qp]).
+  destruct (lead_cross_split genes) as (C & N & EC & LC & HC & _).
+  assert (HN : forall g, In g N -> bridges (gloc g) = false).
+  { intros g Hg. apply Hcf. rewrite <- LC, EC, skipn_length_app. exact Hg. }
+  (* the bisection *)
+  destruct (downward_split (fun g => feat_lt (gloc g) q) genes) as (A & B & EAB & HA & HB).
+  { intros a x b y E Hy Hp. pose proof Hks as Hks'. rewrite E in Hks'.
+    apply KS_app in Hks'. destruct Hks' as (_ & [Hxb _] & _). specialize (Hxb y Hy). cbn beta in Hp |- *.
+    clear - Hxb Hp. unfold kle, feat_lt, pair_lt in *.
+    destruct (fkey (gloc x)) as [x1 x2], (fkey (gloc y)) as [y1 y2], (fkey q) as [q1 q2]. cbn [fst snd] in *. lia. }
+  (* the crossing genes lie in the true prefix *)
+  assert (HCA : exists A', A = C ++ A' /\ N = A' ++ B).
+  { assert (Hlen : (length C <= length A)%nat).
+    { destruct (Nat.le_gt_cases (length C) (length A)) as [H|H]; [exact H|exfalso].
+      assert (Hn : nth_error genes (length A) <> None) by (apply nth_error_Some; rewrite EC, app_length; lia).
+      destruct (nth_error genes (length A)) as [x|] eqn:Ex; [|congruence].
+      assert (HxC : In x C).
+      { rewrite EC in Ex. rewrite nth_error_app1 in Ex by exact H. exact (nth_error_In _ _ Ex). }
+      assert (HxB : In x B).
+      { rewrite EAB in Ex. rewrite nth_error_app2 in Ex by lia. exact (nth_error_In _ _ Ex). }
+      assert (Hxg : In x genes) by (rewrite EC; apply in_or_app; now left).
+      pose proof (Hcq x Hxg (HC x HxC)) as Ht. fold q in Ht. rewrite (HB x HxB) in Ht. discriminate. }
+    exists (skipn (length C) A). split.
+    - rewrite <- (firstn_skipn (length C) A) at 1. f_equal.
+      assert (E : firstn (length C) genes = C) by (rewrite EC; apply firstn_length_app).
+      rewrite <- E at 2. rewrite EAB. rewrite firstn_app. replace (length C - length A)%nat with 0%nat by lia.
+      cbn [firstn]. now rewrite app_nil_r.
+    - assert (E : skipn (length C) genes = N) by (rewrite EC; apply skipn_length_app).
+      rewrite <- E. rewrite EAB. rewrite skipn_app. replace (length C - length A)%nat with 0%nat by lia.
+      reflexivity. }
+  destruct HCA as (A' & EA & ENB).
+  unfold candidates, find_start. cbv zeta. fold q. rewrite <- LC.
+  assert (Ei0 : bisect (fun g => feat_lt (gloc g) q) genes (length C) = length A).
+  { rewrite EAB. apply bisect_partition; [exact HA|exact HB|rewrite EA, app_length; lia]. }
+  rewrite Ei0.
+  (* the back-step over the genes with the query's start *)
+  destruct (backstep_decomp (length C) (fun g => lstart (gloc g) =? lstart q) genes (length A))
+    as (pre1 & mid1 & E1 & L1 & Lo1 & M1 & P1).
+  { rewrite EAB, EA, !app_length. lia. }
+  rewrite EAB, firstn_length_app in E1. rewrite <- L1.
+  assert (HP : exists P1', pre1 = C ++ P1' /\ A' = P1' ++ mid1).
+  { exists (skipn (length C) pre1).
+    assert (Ef : firstn (length C) pre1 = C).
+    { assert (E : firstn (length C) (pre1 ++ mid1) = C) by (rewrite <- E1, EA; apply firstn_length_app).
+      rewrite firstn_app in E. replace (length C - length pre1)%nat with 0%nat in E by lia.
+      cbn [firstn] in E. now rewrite app_nil_r in E. }
+    split.
+    - rewrite <- (firstn_skipn (length C) pre1) at 1. now rewrite Ef.
+    - assert (E : skipn (length C) (pre1 ++ mid1) = A') by (rewrite <- E1, EA; apply skipn_length_app).
+      rewrite skipn_app in E. replace (length C - length pre1)%nat with 0%nat in E by lia. exact (eq_sym E). }
+  destruct HP as (P1' & EP & EA').
+  assert (Egenes : genes = C ++ P1' ++ mid1 ++ B).
+  { rewrite EAB, EA, EA'. now rewrite <- !app_assoc. }
+  assert (HNe : N = P1' ++ mid1 ++ B) by (rewrite ENB, EA'; now rewrite <- app_assoc).
+  assert (Efirst : firstn (length C) genes = C) by (rewrite EC; apply firstn_length_app).
+  assert (Emid : firstn (length pre1 - length C) (skipn (length C) genes) = P1').
+  { rewrite EC, skipn_length_app, HNe. rewrite EP, app_length.
+    replace (length C + length P1' - length C)%nat with (length P1') by lia. apply firstn_length_app. }
+  assert (Erest : skipn (length pre1) genes = mid1 ++ B).
+  { rewrite Egenes, EP. rewrite app_assoc. apply skipn_length_app. }
+  rewrite Efirst, Emid, Erest.
+  assert (KN : KS N) by (rewrite EC in Hks; apply KS_app in Hks; tauto).
+  pose proof (KS_nb_sorted N KN HN) as HNsorted.
+  assert (HNok : forall g, In g N -> parts_ok g) by (intros g Hg; apply Hok; rewrite EC; apply in_or_app; now right).
+  assert (HA'le : forall g, In g A' -> gs g <= ps qp).
+  { intros g Hg. assert (Hb : bridges (gloc g) = false) by (apply HN; rewrite ENB; apply in_or_app; now left).
+    assert (Ht : feat_lt (gloc g) q = true) by (apply HA; rewrite EA; apply in_or_app; now right).
+    apply (feat_lt_query qp g Hb) in Ht. lia. }
+  assert (HP1lt : forall g, In g P1' -> gs g < ps qp).
+  { destruct (rev P1') as [|y rp] eqn:Er.
+    { apply (f_equal (@rev gene)) in Er. rewrite rev_involutive in Er. cbn in Er. rewrite Er. intros ? []. }
+    apply (f_equal (@rev gene)) in Er. rewrite rev_involutive in Er. cbn [rev] in Er.
+    destruct P1 as [Hl|(pre' & x & Ex & Hx)].
+    { rewrite EP, Er, !app_length in Hl. cbn [length] in Hl. lia. }
+    assert (Exy : x = y).
+    { rewrite EP, Er, app_assoc in Ex. apply app_inj_tail in Ex. symmetry. tauto. }
+    subst x. cbn beta in Hx. unfold q, lstart at 2 in Hx. cbn [map lmin fold_left ps] in Hx.
+    assert (HyA : In y A') by (rewrite EA', Er; apply in_or_app; left; apply in_or_app; right; now left).
+    pose proof (HA'le y HyA) as Hyle.
+    assert (Hylt : gs y < ps qp) by (unfold gs in *; lia).
+    intros g Hg. rewrite Er in Hg. apply in_app_or in Hg. destruct Hg as [Hg|[<-|[]]]; [|exact Hylt].
+    assert (Hgy : gs g <= gs y).
+    { apply (HNsorted (rev rp) (y :: mid1 ++ B)); [|exact Hg|now left].
+      rewrite HNe, Er. now rewrite <- app_assoc. }
+    lia. }
+  assert (Hrest_sorted : forall a b, mid1 ++ B = a ++ b -> forall x y, In x a -> In y b -> gs x <= gs y).
+  { intros a b E x y Hx Hy. apply (HNsorted (P1' ++ a) b); [rewrite HNe, E; now rewrite app_assoc| |exact Hy].
+    apply in_or_app. now right. }
+  assert (Hrest_ok : forall g, In g (mid1 ++ B) -> parts_ok g).
+  { intros g Hg. apply HNok. rewrite HNe. apply in_or_app. now right. }
+  subst q. rewrite !filter_app.
+  rewrite (take_while_hits qp Hq wo (mid1 ++ B) Hrest_sorted Hrest_ok).
+  rewrite Egenes. rewrite !filter_app. f_equal. f_equal.
+  destruct wo.
+  - apply filter_filter_imp. intros g Hg Hh.
+    assert (Hgo : parts_ok g) by (apply HNok; rewrite HNe; apply in_or_app; now left).
+    pose proof (hit_ends_after qp Hq true g Hgo Hh) as He.
+    unfold lstart. cbn [map lmin fold_left]. unfold ge in He. lia.
+  - cbn [filter]. symmetry. apply filter_all_false. intros g Hg.
+    unfold hit. cbn [andb]. rewrite orb_false_r.
+    destruct (contains [qp] (gloc g)) eqn:Hc; [|reflexivity].
+    assert (Hgo : parts_ok g) by (apply HNok; rewrite HNe; apply in_or_app; now left).
+    pose proof (contained_starts_within qp g Hgo Hc). pose proof (HP1lt g Hg). lia.
+Qed.
+
+(* ------------------------------------------------------------------ origin-crossing genes sort first *)
+Lemma split_fwd_in : forall l acc u lo, split_fwd acc l = (u, lo) -> forall p, In p u -> In p acc \/ In p l.
+Proof.
+  induction l as [|p r IH]; intros acc u lo H p0 Hp0; cbn [split_fwd] in H.
+  - injection H as <- <-. left. now apply in_rev.
+  - destruct acc as [|u0 acc'].
+    + destruct (IH _ _ _ H p0 Hp0) as [[<-|[]]|Hr]; right; [now left|now right].
+    + destruct (ps u0 <? ps p).
+      * destruct (IH _ _ _ H p0 Hp0) as [[<-|Ha]|Hr]; [right; now left|now left|right; now right].
+      * injection H as <- <-. left. now apply in_rev.
+Qed.
+
+Lemma split_rev_in : forall l acc lo up, split_rev acc l = (lo, up) -> forall p, In p up -> In p l.
+Proof.
+  induction l as [|p r IH]; intros acc lo up H p0 Hp0; cbn [split_rev] in H.
+  - injection H as <- <-. destruct Hp0.
+  - destruct acc as [|u0 acc'].
+    + right. exact (IH _ _ _ H p0 Hp0).
+    + destruct (ps p <? ps u0).
+      * right. exact (IH _ _ _ H p0 Hp0).
+      * injection H as <- <-. exact Hp0.
+Qed.
+
+Lemma kstart_neg l : bridges l = true -> key_ok l = true -> (forall p, In p l -> ps p < pe p) -> kstart l < 0.
+Proof.
+  intros Hb Hk Hpos. unfold kstart, key_ok in *. rewrite Hb in *.
+  destruct (split_bridging l) as [[lower head]|] eqn:Es; [|discriminate].
+  assert (Hhead : head <> [] /\ forall p, In p head -> In p l).
+  { unfold split_bridging in Es.
+    assert (Hc : is_compound l = true) by (unfold bridges in Hb; destruct (is_compound l); [reflexivity|discriminate]).
+    rewrite Hc in Es. cbn [negb] in Es.
+    destruct (negb (all_same_strand l)); [discriminate|].
+    destruct (lstrand l =? -1).
+    - destruct (split_rev [] l) as [lo up] eqn:E.
+      destruct (negb (nonempty lo && nonempty up)) eqn:En; [discriminate|].
+      destruct (negb (valid_split lo up (lstrand l))); [discriminate|]. injection Es as <- <-.
+      split; [destruct up; [rewrite andb_false_r in En; discriminate|discriminate]|].
+      exact (split_rev_in _ _ _ _ E).
+    - destruct (split_fwd [] l) as [u lo] eqn:E.
+      destruct (negb (nonempty lo && nonempty u)) eqn:En; [discriminate|].
+      destruct (negb (valid_split lo u (lstrand l))); [discriminate|]. injection Es as <- <-.
+      split; [destruct u; [rewrite andb_false_r in En; discriminate|discriminate]|].
+      intros p Hp. destruct (split_fwd_in _ _ _ _ E p Hp) as [[]|H]. exact H. }
+  destruct Hhead as [Hne Hin]. destruct head as [|p r]; [congruence|].
+  assert (Hp : In p (p :: r)) by now left.
+  pose proof (Hpos p (Hin p Hp)).
+  assert (lmin (map ps (p :: r)) <= ps p) by (apply lmin_le; now apply in_map).
+  assert (pe p <= lmax (map pe (p :: r))) by (apply lmax_ge; now apply in_map).
+  lia.
+Qed.
+
+Lemma gene_ok_inv g : gene_ok g = true ->
+  parts_ok g /\ (forall p, In p (gloc g) -> 0 <= ps p) /\ key_ok (gloc g) = true.
+Proof.
+  unfold gene_ok, parts_ok. intros H. apply andb_prop in H. destruct H as [H Hk].
+  apply andb_prop in H. destruct H as [Hn Hp]. rewrite forallb_forall in Hp.
+  split; [split|split; [|exact Hk]].
+  - destruct (gloc g); [discriminate|discriminate].
+  - intros p Hin. specialize (Hp p Hin). lia.
+  - intros p Hin. specialize (Hp p Hin). lia.
+Qed.
+
+Lemma gene_ok_key g : gene_ok g = true ->
+  (bridges (gloc g) = true -> kstart (gloc g) < 0) /\ (bridges (gloc g) = false -> 0 <= kstart (gloc g)).
+Proof.
+  intros H. destruct (gene_ok_inv g H) as ([Hne Hpos] & Hnn & Hk). split; intros Hb.
+  - exact (kstart_neg _ Hb Hk Hpos).
+  - unfold kstart. rewrite Hb. destruct (lstart_in (gloc g) Hne) as (p & Hp & <-). exact (Hnn p Hp).
+Qed.
+
+Lemma cross_first_ok genes : KS genes -> (forall g, In g genes -> gene_ok g = true) -> cross_first genes.
+Proof.
+  intros Hks Hok. unfold cross_first.
+  destruct (lead_cross_split genes) as (C & N & EC & LC & HC & HN).
+  rewrite <- LC, EC, skipn_length_app.
+  destruct N as [|n N']; [intros ? []|].
+  intros g [<-|Hg]; [exact HN|].
+  destruct (bridges (gloc g)) eqn:Hb; [exfalso|reflexivity].
+  rewrite EC in Hks. apply KS_app in Hks. destruct Hks as (_ & [Hn _] & _). specialize (Hn g Hg).
+  assert (Hgin : In g genes) by (rewrite EC; apply in_or_app; right; now right).
+  assert (Hnin : In n genes) by (rewrite EC; apply in_or_app; right; now left).
+  pose proof (proj1 (gene_ok_key g (Hok g Hgin)) Hb).
+  pose proof (proj2 (gene_ok_key n (Hok n Hnin)) HN).
+  unfold kle, feat_lt, fkey, pair_lt in Hn. cbn [fst snd] in Hn. lia.
+Qed.
+
+Lemma clamp_start_nonneg q : 0 <= lstart (clamp q).
+Proof. unfold clamp. destruct (lstart q <? 0) eqn:E; [cbn; lia|lia]. Qed.
 
 Theorem lookup_exact genes q wo :
   layout_ok genes = true -> is_compound q = false -> query_ok (clamp q) = true ->
   lookup genes q wo = filter (hit (clamp q) wo) genes.
 Proof.
   intros Hl Hc Hq. destruct (query_ok_inv _ Hq) as (qp & E & Hp).
-  unfold lookup. rewrite Hc. destruct genes as [|g0 genes']; [reflexivity|].
-  unfold lookup_simple. rewrite E. apply lookup_simple_exact; assumption.
+  unfold lookup. rewrite Hc. destruct genes as [|g0 genes']; [reflexivity|]. set (genes := g0 :: genes') in *.
+  unfold layout_ok in Hl. apply andb_prop in Hl. destruct Hl as [Hok Hsorted].
+  rewrite forallb_forall in Hok. pose proof (key_sorted_KS _ Hsorted) as Hks.
+  unfold lookup_simple. cbv zeta. pose proof (clamp_start_nonneg q) as H0. rewrite E in *.
+  apply lookup_simple_core; [exact Hp|exact Hks| |exact (cross_first_ok genes Hks Hok)|].
+  - intros g Hg. exact (proj1 (gene_ok_inv g (Hok g Hg))).
+  - intros g Hg Hb. pose proof (proj1 (gene_ok_key g (Hok g Hg)) Hb) as Hneg.
+    unfold feat_lt. rewrite fkey_single. unfold fkey, pair_lt. cbn [fst snd].
+    unfold lstart in H0. cbn [map lmin fold_left] in H0. lia.
 Qed.
 
 (* a query that starts at or after 0 is used as it is; a negative start is cut at 0, which does not
@@ -352,25 +602,29 @@ Proof.
 Qed.
 
 (* ------------------------------------------------------------------ soundness for every layout *)
-Lemma scan_sound q wo l g : In g (scan q wo l) -> In g l /\ hit q wo g = true.
-Proof.
-  induction l as [|f r IH]; intros H; [destruct H|].
-  cbn [scan] in H. unfold hit.
-  destruct (contains q (gloc f)) eqn:Hc.
-  - destruct H as [<-|H]; [split; [now left|now rewrite Hc]|]. destruct (IH H). split; [now right|assumption].
-  - destruct (wo && overlap (gloc f) q) eqn:Ho.
-    + destruct H as [<-|H]; [split; [now left|rewrite Hc, Ho; reflexivity]|]. destruct (IH H). split; [now right|assumption].
-    + destruct r as [|n r']; [destruct H|].
-      destruct (contains (gloc f) (gloc n)); [|destruct H]. destruct (IH H). split; [now right|assumption].
-Qed.
-
 Lemma In_skipn {A} (x : A) n l : In x (skipn n l) -> In x l.
 Proof. intros H. rewrite <- (firstn_skipn n l). apply in_or_app. now right. Qed.
+Lemma In_firstn {A} (x : A) n l : In x (firstn n l) -> In x l.
+Proof. intros H. rewrite <- (firstn_skipn n l). apply in_or_app. now left. Qed.
+Lemma take_while_in {A} (p : A -> bool) l x : In x (take_while p l) -> In x l.
+Proof.
+  induction l as [|y l IH]; intros H; [destruct H|]. cbn [take_while] in H.
+  destruct (p y); [|destruct H]. destruct H as [<-|H]; [now left|right; now apply IH].
+Qed.
+
+Lemma candidates_in genes q wo g : In g (candidates genes q wo) -> In g genes.
+Proof.
+  unfold candidates. cbv zeta. intros H. apply in_app_or in H. destruct H as [H|H]; [exact (In_firstn _ _ _ H)|].
+  apply in_app_or in H. destruct H as [H|H].
+  - destruct wo; [|destruct H]. apply filter_In in H. destruct H as [H _].
+    exact (In_skipn _ _ _ (In_firstn _ _ _ H)).
+  - exact (In_skipn _ _ _ (take_while_in _ _ _ H)).
+Qed.
 
 Lemma lookup_simple_sound genes q wo g : In g (lookup_simple genes q wo) -> In g genes /\ hit (clamp q) wo g = true.
 Proof.
-  unfold lookup_simple. intros H. apply scan_sound in H. destruct H as [H1 H2]. split; [|exact H2].
-  exact (In_skipn _ _ _ H1).
+  unfold lookup_simple. cbv zeta. intros H. apply filter_In in H. destruct H as [H1 H2]. split; [|exact H2].
+  exact (candidates_in _ _ _ _ H1).
 Qed.
 
 Lemma extend_new_in acc found g : In g (extend_new acc found) -> In g acc \/ In g found.
@@ -383,14 +637,15 @@ Proof.
 Qed.
 
 Lemma compound_feats_sound genes g : forall parts acc,
-  In g (fold_left (fun acc p => extend_new acc (lookup_simple genes [p] true)) parts acc) ->
+  In g (fold_left (compound_step genes) parts acc) ->
   In g acc \/ (In g genes /\ exists p, In p parts /\ hit (clamp [p]) true g = true).
 Proof.
   induction parts as [|p parts IH]; intros acc H; [now left|].
   cbn [fold_left] in H. destruct (IH _ H) as [Ha|(Hg & p' & Hp' & Hh)].
-  - destruct (extend_new_in _ _ _ Ha) as [Hacc|Hf]; [now left|].
-    apply lookup_simple_sound in Hf. destruct Hf as [Hg Hh]. right. split; [exact Hg|].
-    exists p. split; [now left|exact Hh].
+  - unfold compound_step in Ha. cbv zeta in Ha. destruct (extend_new_in _ _ _ Ha) as [Hacc|Hf].
+    + apply filter_In in Hacc. left. tauto.
+    + apply lookup_simple_sound in Hf. destruct Hf as [Hg Hh]. right. split; [exact Hg|].
+      exists p. split; [now left|exact Hh].
   - right. split; [exact Hg|]. exists p'. split; [now right|exact Hh].
 Qed.
 
@@ -411,27 +666,6 @@ Proof.
       repeat split; auto; try discriminate. intros _. exists p. now split.
   - intros H. apply lookup_simple_sound in H. destruct H as [Hg Hh].
     repeat split; auto; discriminate.
-Qed.
-
-(* ------------------------------------------------------------------ refutations (witnesses) *)
-Lemma lookup_refuted_nested : exists gs st q,
-  build_genes gs = Ok st /\ forallb simple_gene gs = true /\ query_ok q = true /\
-  lookup (sgenes st) q false <> filter (hit q false) (sgenes st).
-Proof.
-  exists [mkGene 0 [mkPart 6 10 1] []; mkGene 1 [mkPart 6 23 1] []; mkGene 2 [mkPart 6 26 1] []; mkGene 3 [mkPart 8 19 1] []].
-  eexists. exists [mkPart 5 20 1].
-  split; [vm_compute; reflexivity|]. split; [reflexivity|]. split; [reflexivity|].
-  vm_compute. discriminate.
-Qed.
-
-Lemma lookup_refuted_origin : exists gs st q,
-  build_genes gs = Ok st /\ query_ok q = true /\
-  lookup (sgenes st) q true <> filter (hit q true) (sgenes st).
-Proof.
-  exists [mkGene 0 [mkPart 35 40 1; mkPart 0 4 1] []; mkGene 1 [mkPart 10 14 1] []; mkGene 2 [mkPart 20 30 1] []].
-  eexists. exists [mkPart 36 40 1].
-  split; [vm_compute; reflexivity|]. split; [reflexivity|].
-  vm_compute. discriminate.
 Qed.
 
 (* ------------------------------------------------------------------ add_cds *)
@@ -1248,91 +1482,46 @@ Proof.
 Qed.
 
 (* ------------------------------------------------------------------ gene list: bisect insertion, the look-up of an area, guard reflection *)
-Lemma SS_app_intro a b : SS a -> SS b -> (forall x y, In x a -> In y b -> le2 x y) -> SS (a ++ b).
+Lemma feat_lt_kle a b : feat_lt (gloc a) (gloc b) = true -> kle a b.
 Proof.
-  induction a as [|x a IH]; intros Ha Hb Hab; [exact Hb|].
-  destruct Ha as [Hx Ha]. cbn [app SS]. split.
-  - intros r' Hr. apply in_app_or in Hr. destruct Hr as [Hr|Hr]; [now apply Hx|].
-    apply Hab; [now left|exact Hr].
-  - apply IH; [exact Ha|exact Hb|]. intros u v Hu Hv. apply Hab; [now right|exact Hv].
-Qed.
-
-Lemma SS_monotone l : SS l -> monotone l = true.
-Proof.
-  induction l as [|a l IH]; intros H; [reflexivity|].
-  destruct l as [|b t]; [reflexivity|].
-  destruct H as [Ha Hs].
-  change (monotone (a :: b :: t)) with
-    ((lstart (gloc a) <=? lstart (gloc b)) && (lend (gloc a) <=? lend (gloc b)) && monotone (b :: t)).
-  rewrite (IH Hs).
-  destruct (Ha b (or_introl eq_refl)) as [H1 H2]. unfold gs, ge in H1, H2.
-  apply Z.leb_le in H1. apply Z.leb_le in H2. rewrite H1, H2. reflexivity.
-Qed.
-
-Lemma feat_lt_gene x g : simple_gene x = true -> simple_gene g = true ->
-  (feat_lt (gloc x) (gloc g) = true <-> (gs x < gs g \/ (gs x = gs g /\ ge x - gs x < ge g - gs g))).
-Proof.
-  intros Hx Hg. destruct (simple_gene_inv x Hx) as (p & E & Hp & Es & Ee).
-  destruct (simple_gene_inv g Hg) as (p' & E' & Hp' & Es' & Ee').
-  unfold feat_lt. rewrite E, E', Es, Ee, Es', Ee', !fkey_single. unfold pair_lt. cbn [fst snd]. lia.
+  unfold kle, feat_lt, pair_lt. destruct (fkey (gloc a)) as [a1 a2], (fkey (gloc b)) as [b1 b2]. cbn [fst snd]. lia.
 Qed.
 
 (* add_cds_feature's bisect insertion (bisect_right: after the genes that are not greater) keeps the gene list in the
-   "no gene nested" order *)
-Lemma insert_SS l g : SS l -> (forall x, In x l -> simple_gene x = true) -> simple_gene g = true ->
-  (forall x, In x l -> le2 x g \/ le2 g x) ->
+   order of Feature.__lt__, whatever the genes are *)
+Lemma insert_KS l g : KS l ->
   exists A B, l = A ++ B /\
-     insert_at (bisect (fun e => negb (feat_lt (gloc g) (gloc e))) l 0) g l = A ++ g :: B /\ SS (A ++ g :: B).
+     insert_at (bisect (fun e => negb (feat_lt (gloc g) (gloc e))) l 0) g l = A ++ g :: B /\ KS (A ++ g :: B).
 Proof.
-  intros Hss Hsim Hg Hcmp.
+  intros Hks.
   destruct (downward_split (fun e => negb (feat_lt (gloc g) (gloc e))) l) as (A & B & E & HA & HB).
-  { intros a x b y E Hy Hp. subst l.
-    assert (Hx : simple_gene x = true) by (apply Hsim, in_or_app; right; now left).
-    assert (Hy' : simple_gene y = true) by (apply Hsim, in_or_app; right; now right).
-    apply SS_app in Hss. destruct Hss as (_ & [Hxb _] & _). specialize (Hxb y Hy). destruct Hxb as [L1 L2].
-    pose proof (feat_lt_gene g x Hg Hx) as Fx. pose proof (feat_lt_gene g y Hg Hy') as Fy.
-    apply negb_true_iff in Hp. apply negb_true_iff.
-    destruct (feat_lt (gloc g) (gloc x)); [|reflexivity].
-    assert (T : feat_lt (gloc g) (gloc y) = true) by (apply Fy; pose proof (proj1 Fx eq_refl); lia).
-    rewrite T in Hp. discriminate. }
+  { intros a x b y E Hy Hp. pose proof Hks as Hks'. rewrite E in Hks'.
+    apply KS_app in Hks'. destruct Hks' as (_ & [Hxb _] & _). specialize (Hxb y Hy).
+    apply negb_true_iff in Hp. apply negb_true_iff. exact (kle_trans x y g Hxb Hp). }
   exists A, B. split; [exact E|]. subst l.
   rewrite (bisect_partition _ A B 0%nat HA HB (Nat.le_0_l _)).
   unfold insert_at. rewrite firstn_length_app, skipn_length_app. split; [reflexivity|].
-  destruct (SS_app A B Hss) as (SA & SB & HAB).
-  assert (HgB : forall y, In y B -> le2 g y).
-  { intros y Hy.
-    assert (Hys : simple_gene y = true) by (apply Hsim, in_or_app; now right).
-    pose proof (feat_lt_gene g y Hg Hys) as F. specialize (HB y Hy). cbn beta in HB. apply negb_false_iff in HB.
-    apply F in HB.
-    destruct (Hcmp y (in_or_app _ _ _ (or_intror Hy))) as [C|C]; [|exact C].
-    destruct C as [C1 C2]. unfold le2. lia. }
-  apply SS_app_intro; [exact SA|split; [exact HgB|exact SB]|].
-  intros x y Hx [<-|Hy]; [|now apply HAB].
-  assert (Hxs : simple_gene x = true) by (apply Hsim, in_or_app; now left).
-  pose proof (HA x Hx) as Hl. cbn beta in Hl. apply negb_true_iff in Hl.
-  pose proof (feat_lt_gene g x Hg Hxs) as F.
-  destruct (Hcmp x (in_or_app _ _ _ (or_introl Hx))) as [C|C]; [exact C|].
-  destruct C as [C1 C2]. unfold le2.
-  destruct (Z_lt_ge_dec (gs g) (gs x)) as [Hlt|Hge].
-  - rewrite (proj2 F (or_introl Hlt)) in Hl. discriminate.
-  - destruct (Z_lt_ge_dec (ge g) (ge x)) as [Hlt2|Hge2]; [|lia].
-    assert (Ht : feat_lt (gloc g) (gloc x) = true) by (apply F; right; lia).
-    rewrite Ht in Hl. discriminate.
+  destruct (KS_app A B Hks) as (SA & SB & HAB).
+  apply KS_app_intro; [exact SA|split; [|exact SB]|].
+  - intros y Hy. apply feat_lt_kle. specialize (HB y Hy). cbn beta in HB. now apply negb_false_iff in HB.
+  - intros x y Hx [<-|Hy]; [|now apply HAB].
+    specialize (HA x Hx). cbn beta in HA. now apply negb_true_iff in HA.
 Qed.
 
-(* the look-up made by add_protocluster / add_subregion / add_region / add_candidate_cluster *)
-Lemma lookup_area l a : SS l -> (forall x, In x l -> simple_gene x = true) -> area_simple a = true ->
+(* the look-up made by add_protocluster / add_subregion / add_region / add_candidate_cluster: every gene inside the area,
+   nested or not *)
+Lemma lookup_area l a : KS l -> (forall x, In x l -> simple_gene x = true) -> area_simple a = true ->
   lookup l (aloc a) false = filter (fun g => contains (aloc a) (gloc g)) l.
 Proof.
-  intros Hss Hsim Ha. unfold area_simple in Ha. apply andb_prop in Ha. destruct Ha as [Hq H0].
-  apply Z.leb_le in H0.
-  assert (Hl : layout_ok l = true).
-  { unfold layout_ok. apply andb_true_intro. split; [apply forallb_forall; exact Hsim|apply SS_monotone; exact Hss]. }
-  assert (Hc : is_compound (aloc a) = false).
-  { destruct (query_ok_inv _ Hq) as (p & E & _). rewrite E. reflexivity. }
-  assert (Hq' : query_ok (clamp (aloc a)) = true) by (rewrite (clamp_nonneg _ H0); exact Hq).
-  rewrite (lookup_exact l (aloc a) false Hl Hc Hq'). rewrite (clamp_nonneg _ H0).
-  apply filter_ext. intros g. unfold hit. cbn [andb]. apply orb_false_r.
+  intros Hks Hsim Ha. unfold area_simple in Ha. apply andb_prop in Ha. destruct Ha as [Hq H0].
+  apply Z.leb_le in H0. destruct (query_ok_inv _ Hq) as (p & E & Hp).
+  unfold lookup. rewrite E. cbn [is_compound]. destruct l as [|g0 l']; [reflexivity|]. set (l := g0 :: l') in *.
+  unfold lookup_simple. cbv zeta. rewrite <- E, (clamp_nonneg _ H0), E.
+  rewrite (lookup_simple_core l p false Hp Hks).
+  - apply filter_ext. intros g. unfold hit. cbn [andb]. apply orb_false_r.
+  - intros g Hg. exact (proj1 (simple_parts_ok g (Hsim g Hg))).
+  - intros g Hg. exact (proj2 (simple_parts_ok g (Hsim g (In_skipn _ _ _ Hg)))).
+  - intros g Hg Hb. rewrite (proj2 (simple_parts_ok g (Hsim g Hg))) in Hb. discriminate.
 Qed.
 
 Lemma area_simple_simple a : area_simple a = true -> simple_area a /\ 0 <= as_ a.
@@ -1355,16 +1544,6 @@ Proof.
   change (negb (zmem x r) && unique_ids r = true) in H.
   apply andb_prop in H. destruct H as [H1 H2]. apply negb_true_iff in H1.
   constructor; [apply zmem_false_not_In; exact H1|apply IH; exact H2].
-Qed.
-
-Lemma chain_ok_spec genes : chain_ok genes = true -> forall x y, In x genes -> In y genes -> le2 x y \/ le2 y x.
-Proof.
-  intros H x y Hx Hy. unfold chain_ok in H.
-  pose proof (proj1 (forallb_forall _ _) H x Hx) as H1. cbn beta in H1.
-  pose proof (proj1 (forallb_forall _ _) H1 y Hy) as H2. cbn beta in H2.
-  apply orb_prop in H2. unfold le2, gs, ge.
-  destruct H2 as [H2|H2]; unfold le2b in H2; apply andb_prop in H2; destruct H2 as [A B];
-    apply Z.leb_le in A; apply Z.leb_le in B; [left|right]; split; assumption.
 Qed.
 
 Lemma area_fresh_spec a : area_fresh a = true -> amem a = [] /\ adef a = [].
@@ -1559,7 +1738,7 @@ Definition regs_of (st : state) : list area := areas_of (sareas st) (sregs st).
 
 Record Inv (st : state) : Prop := mkInv {
   inv_simple : forall g, In g (sgenes st) -> simple_gene g = true;
-  inv_ss : SS (sgenes st);
+  inv_ss : KS (sgenes st);
   inv_gid : NoDup (map gid (sgenes st));
   inv_aid : NoDup (map aid (sareas st));
   inv_asimple : forall a, In a (sareas st) -> area_simple a = true;
@@ -1629,13 +1808,13 @@ Qed.
 
 (* ------------------------------------------------------------------ a gene is added (gene after areas) *)
 Lemma step_gene st g st' : Inv st -> add_gene st g = Ok st' ->
-  simple_gene g = true -> (forall x, In x (sgenes st) -> le2 x g \/ le2 g x) -> ~ In (gid g) (map gid (sgenes st)) ->
+  simple_gene g = true -> ~ In (gid g) (map gid (sgenes st)) ->
   Inv st' /\ (forall x, In x (sgenes st') <-> x = g \/ In x (sgenes st)) /\
   map static (sareas st') = map static (sareas st).
 Proof.
-  intros I H Hg Hchain Hfresh. unfold add_gene in H.
+  intros I H Hg Hfresh. unfold add_gene in H.
   destruct (existsb (fun x => loc_eqb (gloc x) (gloc g)) (sgenes st)); [discriminate|].
-  destruct (insert_SS (sgenes st) g (inv_ss st I) (inv_simple st I) Hg Hchain) as (A & B & EAB & Eins & HSS).
+  destruct (insert_KS (sgenes st) g (inv_ss st I)) as (A & B & EAB & Eins & HSS).
   rewrite Eins in H. set (G := A ++ g :: B) in *.
   unfold link_cds in H. cbn [sgenes sareas sregs slink] in H.
   fold (regs_of st) in H.
@@ -1919,7 +2098,6 @@ Qed.
 (* ------------------------------------------------------------------ whole histories *)
 Definition GuardP (ops : list op) : Prop :=
   (forall g, In g (ops_genes ops) -> simple_gene g = true) /\
-  (forall x y, In x (ops_genes ops) -> In y (ops_genes ops) -> le2 x y \/ le2 y x) /\
   NoDup (map gid (ops_genes ops)) /\
   (forall a, In a (ops_areas ops) -> area_simple a = true /\ amem a = [] /\ adef a = []) /\
   NoDup (map aid (ops_areas ops)) /\
@@ -1931,7 +2109,6 @@ Proof.
   repeat (apply andb_prop in H; let H' := fresh "H" in destruct H as [H H']).
   unfold GuardP. repeat split.
   - apply forallb_forall. assumption.
-  - apply chain_ok_spec. assumption.
   - apply unique_ids_NoDup. assumption.
   - rewrite forallb_forall in *. auto.
   - rewrite forallb_forall in *. apply area_fresh_spec. auto.
@@ -1954,11 +2131,10 @@ Qed.
 
 Lemma GuardP_prefix ops o : GuardP (ops ++ [o]) -> GuardP ops.
 Proof.
-  intros (G1 & G2 & G3 & G4 & G5 & G6). rewrite ops_genes_app in G1, G2, G3. rewrite ops_areas_app in G4, G5.
+  intros (G1 & G3 & G4 & G5 & G6). rewrite ops_genes_app in G1, G3. rewrite ops_areas_app in G4, G5.
   rewrite map_app in G3, G5.
   repeat split.
   - intros g Hg. apply G1. apply in_or_app. now left.
-  - intros x y Hx Hy. apply G2; apply in_or_app; now left.
   - exact (NoDup_app_l _ _ G3).
   - apply G4. apply in_or_app. now left.
   - apply G4. apply in_or_app. now left.
@@ -1985,7 +2161,7 @@ Proof.
   - cbn in H. injection H as <-. split; [exact inv_empty|]. split; [reflexivity|reflexivity].
   - rewrite exec_snoc in H. destruct (exec ops) as [st1|] eqn:E1; [|discriminate]. cbn [bind] in H.
     destruct (IH st1 (GuardP_prefix _ _ HG) eq_refl) as (I1 & Hgenes & Hareas).
-    destruct HG as (G1 & G2 & G3 & G4 & G5 & G6).
+    destruct HG as (G1 & G3 & G4 & G5 & G6).
     rewrite ops_genes_app in *. rewrite ops_areas_app in *.
     assert (Hk : op_kind_ok o = true) by (apply G6; apply in_or_app; right; now left).
     assert (Hfresh_a : forall a, ops_areas [o] = [a] -> ~ In (aid a) (map aid (sareas st1))).
@@ -1996,13 +2172,11 @@ Proof.
     destruct o as [g|a|a]; cbn [step] in H.
     + cbn [ops_genes ops_areas flat_map app] in *. rewrite app_nil_r.
       assert (Hg : simple_gene g = true) by (apply G1; apply in_or_app; right; now left).
-      assert (Hchain : forall x, In x (sgenes st1) -> le2 x g \/ le2 g x).
-      { intros x Hx. apply G2; apply in_or_app; [left; now apply Hgenes|right; now left]. }
       assert (Hfresh : ~ In (gid g) (map gid (sgenes st1))).
       { intros Hin. apply in_map_iff in Hin. destruct Hin as (x & Ex & Hx).
         rewrite map_app in G3. cbn [map] in G3. apply (NoDup_snoc_inv _ _ G3).
         rewrite <- Ex. apply in_map. now apply Hgenes. }
-      destruct (step_gene st1 g st I1 H Hg Hchain Hfresh) as (I2 & Hg2 & Ha2).
+      destruct (step_gene st1 g st I1 H Hg Hfresh) as (I2 & Hg2 & Ha2).
       split; [exact I2|]. split; [|now rewrite Ha2].
       intros x. rewrite Hg2, in_app_iff, Hgenes. cbn [In]. intuition.
     + cbn [ops_genes ops_areas flat_map app] in *. rewrite app_nil_r.
@@ -2095,4 +2269,56 @@ Proof.
   - rewrite D1, D2. split; intros (g & Hg & E & Hc & Hd); exists g.
     + split; [apply Hg2, Hsame, Hg1, Hg|]. rewrite <- El, <- (defcond_static a1 a2 g Est). auto.
     + split; [apply Hg1, Hsame, Hg2, Hg|]. rewrite El, (defcond_static a1 a2 g Est). auto.
+Qed.
+
+(* ------------------------------------------------------------------ the gene list add_cds_feature builds, in any insertion order *)
+Lemma add_gene_genes st g st' : add_gene st g = Ok st' ->
+  sgenes st' = insert_at (bisect (fun e => negb (feat_lt (gloc g) (gloc e))) (sgenes st) 0) g (sgenes st).
+Proof.
+  unfold add_gene. destruct (existsb _ _); [discriminate|]. unfold link_cds. cbn [sgenes sareas sregs slink].
+  intros H.
+  match type of H with (do tl <- ?F; _) = _ => destruct F as [[t1 lk1]|] end; [|discriminate].
+  cbn [bind] in H.
+  match type of H with (do t2 <- ?F; _) = _ => destruct F as [t2|] end; [|discriminate].
+  cbn [bind] in H. injection H as <-. reflexivity.
+Qed.
+
+Lemma build_sorted gs : forall st, build_genes gs = Ok st -> KS (sgenes st) /\ (forall x, In x (sgenes st) <-> In x gs).
+Proof.
+  unfold build_genes. induction gs as [|g gs IH] using rev_ind; intros st H.
+  - cbn in H. injection H as <-. split; [exact I|reflexivity].
+  - rewrite map_app in H. cbn [map] in H. rewrite exec_snoc in H.
+    destruct (exec (map OGene gs)) as [st1|]; [|discriminate]. cbn [bind step] in H.
+    destruct (IH st1 eq_refl) as [K1 M1]. rewrite (add_gene_genes _ _ _ H).
+    destruct (insert_KS (sgenes st1) g K1) as (A & B & E & Ei & K2). rewrite Ei. split; [exact K2|].
+    intros y. rewrite in_mid, <- E, M1, in_app_iff. cbn [In]. intuition congruence.
+Qed.
+
+(* the look-up on a record built by add_cds_feature in ANY order: every gene layout the Feature constructor accepts *)
+Theorem lookup_built gs st q wo : build_genes gs = Ok st -> forallb gene_ok gs = true ->
+  is_compound q = false -> query_ok (clamp q) = true ->
+  lookup (sgenes st) q wo = filter (hit (clamp q) wo) (sgenes st).
+Proof.
+  intros Hb Hok Hc Hq. destruct (build_sorted gs st Hb) as [K M].
+  apply lookup_exact; [|exact Hc|exact Hq].
+  unfold layout_ok. apply andb_true_intro. split; [|exact (KS_key_sorted _ K)].
+  apply forallb_forall. intros g Hg. rewrite forallb_forall in Hok. apply Hok. now apply M.
+Qed.
+
+(* single-part genes nested in each other in any way (the former refutation C08_lookup_refuted_nested, now positive);
+   no sign condition on the coordinates *)
+Theorem lookup_nested gs st q wo : build_genes gs = Ok st -> forallb simple_gene gs = true ->
+  is_compound q = false -> query_ok (clamp q) = true ->
+  lookup (sgenes st) q wo = filter (hit (clamp q) wo) (sgenes st).
+Proof.
+  intros Hb Hsim Hc Hq. destruct (build_sorted gs st Hb) as [K M].
+  assert (Hs : forall g, In g (sgenes st) -> simple_gene g = true).
+  { intros g Hg. rewrite forallb_forall in Hsim. apply Hsim. now apply M. }
+  destruct (query_ok_inv _ Hq) as (qp & E & Hp).
+  unfold lookup. rewrite Hc. destruct (sgenes st) as [|g0 l'] eqn:El; [reflexivity|]. rewrite <- El in *.
+  unfold lookup_simple. cbv zeta. rewrite E.
+  apply lookup_simple_core; [exact Hp|exact K| | |].
+  - intros g Hg. exact (proj1 (simple_parts_ok g (Hs g Hg))).
+  - intros g Hg. exact (proj2 (simple_parts_ok g (Hs g (In_skipn _ _ _ Hg)))).
+  - intros g Hg Hb'. rewrite (proj2 (simple_parts_ok g (Hs g Hg))) in Hb'. discriminate.
 Qed.
